@@ -22,8 +22,10 @@ def sh(cmd, cwd=None, timeout=3600):
 
 
 def main():
-    prop, name, diff, demo, meta = sys.argv[1:6]
-    extra = sys.argv[6:]
+    args = [a for a in sys.argv[1:] if not a.startswith("--")]
+    mode = "confirm" if "--confirm-only" in sys.argv else ("check" if "--check-only" in sys.argv else "both")
+    prop, name, diff, demo, meta = args[0:5]
+    extra = args[5:]
     feats, rflags = FEATS, ""
     for l in open(meta).read().splitlines()[:4]:
         if l.startswith("FEATURES:"):
@@ -34,37 +36,44 @@ def main():
     os.makedirs(out, exist_ok=True)
     wt = "/tmp/seedchk-%d" % os.getpid()
     res = {"property": prop, "name": name, "ran": []}
-    assert sh(["git", "-C", REPO, "status", "--porcelain", "--untracked-files=no"])[1].strip() == "", "/repo has local changes"
-    sh(["git", "-C", REPO, "worktree", "add", "-q", "--detach", wt, "HEAD"])
+    if mode == "check":
+        res = json.load(open(os.path.join(out, "meta.json")))
+        res["ran"] = []
+    if mode != "confirm":
+        assert sh(["git", "-C", REPO, "status", "--porcelain", "--untracked-files=no"])[1].strip() == "", "/repo has local changes"
+    if mode != "check":
+        sh(["git", "-C", REPO, "worktree", "add", "-q", "--detach", wt, "HEAD"])
     try:
-        os.makedirs(os.path.join(wt, "tests"), exist_ok=True)
-        shutil.copyfile(demo, os.path.join(wt, "tests", "seed_demo.rs"))
-        env_t = "CARGO_TARGET_DIR=%s/target" % wt
-        env_d = env_t + ((" RUSTFLAGS='%s'" % rflags) if rflags else "")
-        rc0, o0 = sh("%s cargo test --offline --features '%s' --test seed_demo 2>&1 | tail -15" % (env_d, feats), cwd=wt)
-        demo_clean = "test result: ok" in o0
-        rc, o = sh(["git", "apply", "--check", diff], cwd=wt)
-        applies = rc == 0
-        res.update({"applies_to_head": applies, "demo_passes_without_change": demo_clean})
-        if applies:
-            sh(["git", "apply", diff], cwd=wt)
-            _, o1 = sh("%s cargo test --offline --features '%s' --test seed_demo 2>&1 | tail -15" % (env_d, feats), cwd=wt)
-            os.remove(os.path.join(wt, "tests", "seed_demo.rs"))
-            _, o2 = sh("%s cargo test --offline 2>&1 | grep 'test result' | head -1" % env_t, cwd=wt)
-            _, o3 = sh("%s cargo test --offline --features '%s' 2>&1 | grep 'test result' | head -1" % (env_t, FEATS), cwd=wt)
-            if "xen" in feats:
-                _, o4 = sh("%s cargo test --offline --features 'xen backend-atomic backend-bitmap' 2>&1 | grep 'test result' | head -1" % env_t, cwd=wt)
-                res["xen_suite_pass_with_change"] = "0 failed" in o4 and "passed" in o4
-            res.update({"demo_features": feats, "demo_rustflags": rflags})
-            res.update({"demo_fails_with_change": "test result: FAILED" in o1 or "panicked" in o1 or "error: test failed" in o1,
-                        "baseline_81_pass_with_change": "81 passed; 0 failed" in o2, "feature_suite_pass_with_change": "0 failed" in o3 and "passed" in o3,
-                        "demo_output_with_change": o1[-600:]})
+      if mode != "check":
+            os.makedirs(os.path.join(wt, "tests"), exist_ok=True)
+            shutil.copyfile(demo, os.path.join(wt, "tests", "seed_demo.rs"))
+            env_t = "CARGO_TARGET_DIR=%s/target" % wt
+            env_d = env_t + ((" RUSTFLAGS='%s'" % rflags) if rflags else "")
+            rc0, o0 = sh("%s cargo test --offline --features '%s' --test seed_demo 2>&1 | tail -15" % (env_d, feats), cwd=wt)
+            demo_clean = "test result: ok" in o0
+            rc, o = sh(["git", "apply", "--check", diff], cwd=wt)
+            applies = rc == 0
+            res.update({"applies_to_head": applies, "demo_passes_without_change": demo_clean})
+            if applies:
+                sh(["git", "apply", diff], cwd=wt)
+                _, o1 = sh("%s cargo test --offline --features '%s' --test seed_demo 2>&1 | tail -15" % (env_d, feats), cwd=wt)
+                os.remove(os.path.join(wt, "tests", "seed_demo.rs"))
+                _, o2 = sh("%s cargo test --offline 2>&1 | grep 'test result' | head -1" % env_t, cwd=wt)
+                _, o3 = sh("%s cargo test --offline --features '%s' 2>&1 | grep 'test result' | head -1" % (env_t, FEATS), cwd=wt)
+                if "xen" in feats:
+                    _, o4 = sh("%s cargo test --offline --features 'xen backend-atomic backend-bitmap' 2>&1 | grep 'test result' | head -1" % env_t, cwd=wt)
+                    res["xen_suite_pass_with_change"] = "0 failed" in o4 and "passed" in o4
+                res.update({"demo_features": feats, "demo_rustflags": rflags})
+                res.update({"demo_fails_with_change": "test result: FAILED" in o1 or "panicked" in o1 or "error: test failed" in o1,
+                            "baseline_81_pass_with_change": "81 passed; 0 failed" in o2, "feature_suite_pass_with_change": "0 failed" in o3 and "passed" in o3,
+                            "demo_output_with_change": o1[-600:]})
     finally:
-        sh(["git", "-C", REPO, "worktree", "remove", "--force", wt])
-        shutil.rmtree(wt, ignore_errors=True)
+        if mode != "check":
+            sh(["git", "-C", REPO, "worktree", "remove", "--force", wt])
+            shutil.rmtree(wt, ignore_errors=True)
     confirmed = res.get("applies_to_head") and res.get("demo_passes_without_change") and res.get("demo_fails_with_change") and res.get("baseline_81_pass_with_change")
     res["confirmed"] = bool(confirmed)
-    if confirmed:
+    if confirmed and mode != "confirm":
         rc, o = sh(["git", "-C", REPO, "apply", diff])
         try:
             for p in [prop] + extra:
